@@ -457,13 +457,6 @@ func (r *Resolver) onStructLike(g *Scope, name string, t *parser.Type, v *parser
 				n, st.Name, file.ast.Filename, v,
 			)
 		}
-		typ, err := r.getTypeName(file, f.Type)
-		if err != nil {
-			return "", fmt.Errorf("get type name of %q in %q (%q): %w",
-				n, st.Name, file.ast.Filename, err,
-			)
-		}
-
 		key := file.StructLike(st.Name).Field(f.Name).GoName().String()
 		val, err := r.resolveConst(file, st.Name+"."+f.Name, f.Type, mcv.Value)
 		if err != nil {
@@ -472,6 +465,13 @@ func (r *Resolver) onStructLike(g *Scope, name string, t *parser.Type, v *parser
 
 		if NeedRedirect(f) {
 			if IsBaseType(f.Type) { // base types and enums: their values are constants, which have no address
+				// the type name is resolved only here: resolving it imports the package that defines it
+				typ, err := r.getTypeName(file, f.Type)
+				if err != nil {
+					return "", fmt.Errorf("get type name of %q in %q (%q): %w",
+						n, st.Name, file.ast.Filename, err,
+					)
+				}
 				// a trick to create pointers without temporary variables
 				val = fmt.Sprintf("(&struct{x %s}{%s}).x", typ, val)
 			}
